@@ -45,10 +45,12 @@ Record Defects := {
                                      the SUCCESS ones are collected, so NotifyDstIBTPIDs is always empty *)
   d_interhub_timeout : bool;      (* setTimeoutList registers H+T for a request to a remote BitXHub although the
                                      transaction manager recorded "no timeout" for it (source-hub role) *)
-  d_receipt_group_skip : bool     (* setTimeoutList skips every IBTP with a Group field, receipts included *)
+  d_receipt_group_skip : bool;    (* setTimeoutList skips every IBTP with a Group field, receipts included *)
+  d_fail_after_success : bool     (* Report: a FAILURE receipt on a BEGIN group is taken without looking at the reporting
+                                     child's own status, also when that child already reported SUCCESS *)
 }.
-Definition cfg_fixed : Defects := Build_Defects false false false false false false false false false false.
-Definition cfg_faithful : Defects := Build_Defects true true true true true true true true true true.
+Definition cfg_fixed : Defects := Build_Defects false false false false false false false false false false false.
+Definition cfg_faithful : Defects := Build_Defects true true true true true true true true true true true.
 
 (** * records *)
 Record ginfo := {
@@ -225,10 +227,16 @@ Definition multi_finished (st : N) (kids : list (txid * N)) (count : N) : bool :
   forallb (fun p => snd p =? st) kids && (N.of_nat (List.length kids) =? count).
 
 (** [changeMultiTxStatus]: Some (info', remove gid from its timeout list?) or None = error *)
-Definition change_multi (gi : ginfo) (i : txid) (r : N) : option (ginfo * bool) :=
+Definition change_multi (cfg : Defects) (gi : ginfo) (i : txid) (r : N) : option (ginfo * bool) :=
   if (g_state gi =? ST_BEGIN) && (r =? 2) then
-    let kids := child_set i ST_FAILURE (children_all ST_BEGIN_FAILURE (g_children gi)) in
-    Some (Build_ginfo ST_BEGIN_FAILURE (g_height gi) kids (g_count gi), true)
+    (* the reporting child's own status goes through the state machine first (a missing map key reads as 0 = BEGIN) *)
+    let own := match child_lookup i (g_children gi) with Some st => st | None => ST_BEGIN end in
+    match (if d_fail_after_success cfg then Some ST_FAILURE else set_fsm own (event_of_receipt r)) with
+    | None => None
+    | Some _ =>
+        let kids := child_set i ST_FAILURE (children_all ST_BEGIN_FAILURE (g_children gi)) in
+        Some (Build_ginfo ST_BEGIN_FAILURE (g_height gi) kids (g_count gi), true)
+    end
   else
     match child_lookup i (g_children gi) with
     | None => None
@@ -265,7 +273,7 @@ Definition tm_report (cfg : Defects) (sorted : list txid -> list txid) (t : txm)
               match child_lookup i (g_children gi) with
               | None => Some (TmErr E_TM_INTERNAL)
               | Some _ =>
-                  match change_multi gi i r with
+                  match change_multi cfg gi i r with
                   | None => Some (TmErr E_STATE)
                   | Some (gi', rm) =>
                       let prev := g_state gi in
